@@ -152,6 +152,7 @@ func (g *Gen) sortOf(t types.Type) string {
 	switch tt := t.(type) {
 	case *types.Named:
 		if tt.Obj().Pkg() == nil && tt.Obj().Name() == "error" {
+			g.needErr()
 			return "Err"
 		}
 		if st, ok := tt.Underlying().(*types.Struct); ok && isRepoPkg(tt.Obj().Pkg()) {
@@ -226,10 +227,12 @@ func (g *Gen) sortOf(t types.Type) string {
 		return name
 	case *types.Interface:
 		if tt.NumMethods() == 0 {
+			g.needErr()
 			g.addSort("Any", "(declare-datatypes ((Any 0)) (((any_nil) (any_int (int_of Int)) (any_str (str_of Str)) (any_bool (bool_of Bool)) (any_err (err_of Err)) (any_other (tag_of Int) (id_of Int)))))")
 			return "Any"
 		}
 		if tt.NumMethods() == 1 && tt.Method(0).Name() == "Error" {
+			g.needErr()
 			return "Err"
 		}
 		name := "I_anon" + strconv.Itoa(tt.NumMethods())
@@ -451,8 +454,6 @@ func (g *Gen) script(extra []string) string {
 	b.WriteString(strPrelude)
 	b.WriteString(strSubAxioms)
 	b.WriteString(strCatAxioms)
-	// Err is almost always needed
-	g.needErr()
 	for _, d := range g.sortDecl {
 		b.WriteString(d + "\n")
 	}
